@@ -86,7 +86,7 @@ func rangeCopiesAllBut(fn *ssa.Function, src ssa.Value, adder string, dst ssa.Va
 			if u, isU := recv.(*ssa.UnOp); isU && u.Op == token.MUL {
 				recv = u.X // load of the captured cell
 			}
-			return recv == to && ssax.Strip(c.Args()[1]) == ssa.Value(visitor.Params[0]) && ssax.Strip(c.Args()[2]) == ssa.Value(visitor.Params[1])
+			return (recv == to || recv == ssax.Strip(dst)) && ssax.Strip(c.Args()[1]) == ssa.Value(visitor.Params[0]) && ssax.Strip(c.Args()[2]) == ssa.Value(visitor.Params[1])
 		}
 		if ssax.PathFrom(visitor, nil, ssax.IsReturn, isAdd) != nil {
 			return false, "the visitor can return without adding the pair"
@@ -778,8 +778,14 @@ func headerConsumer(r *RT, entry *ssa.Function) (*ssa.Function, ssa.Value) {
 		if g == nil || g.Pkg != r.Pkg || len(g.Blocks) == 0 {
 			continue
 		}
+		visitor := false // forEach(headers, func(k, v) {…}): the consumer is the caller's closure
+		for _, a := range c.Common.Args {
+			if _, isMC := ssax.Strip(a).(*ssa.MakeClosure); isMC {
+				visitor = true
+			}
+		}
 		for i, a := range c.Common.Args {
-			if ssax.Strip(a) == headers && i < len(g.Params) && ranged(g, g.Params[i]) {
+			if !visitor && ssax.Strip(a) == headers && i < len(g.Params) && ranged(g, g.Params[i]) {
 				return g, g.Params[i]
 			}
 		}
